@@ -218,6 +218,8 @@ class Builder:
             if not self.leave_args:
                 scribble(v)
             return self._note(s, t)
+        if k == "raw":
+            return t[1]            # not a schema at all (an operand / member that must be refused)
         if k == "ualias":
             from . import fwdtype
             return self._note({"slug": fwdtype.SlugSchema, "point": fwdtype.PointSchema}[t[1]](), t)
